@@ -167,6 +167,14 @@ def layouts(spec):
     if sc is not None:
         extra['category_split_over_include'] = {'main.mal': d + 'include "head.mal"\n' + sc[1] + a, 'head.mal': sc[0]}
         extra['category_reopened'] = {'main.mal': d + sc[0] + sc[1] + a}
+    def commented(text):
+        out = ['// leading comment with tokens: asset X { | s -> t }', '/* block', '   comment #id: "zz" */']
+        for ln in text.split('\n'):
+            out.append(ln + ('   // trailing' if ln.strip().endswith('{') else ''))
+            if ln.startswith('category') or ln.startswith('associations'):
+                out.append('\t/* inline */')
+        return '\r\n'.join(out) + '\n// eof without newline'
+    extra['with_comments'] = {'main.mal': commented(d + c + a)}
     return dict(extra, **{
         'single': {'main.mal': d + c + a},
         'assets_included': {'main.mal': d + 'include "cats.mal"\n' + a, 'cats.mal': c},
